@@ -47,7 +47,7 @@ def random_pools(seed, n, ranks=3):
     while len(pools) < n:
         lens = sorted([rnd.choice([0, 1, 2, 3, 3]), rnd.choice([1, 2, 3, 3]), rnd.choice([2, 3, 3])], reverse=True)
         fail = rnd.choice([0.0, 0.15, 0.35])
-        pool = [[dict(r=rnd.randint(1, ranks), z=rnd.randint(1, 2), o=("ok" if rnd.random() >= fail else rnd.choice(["vf", "xf"])))
+        pool = [[dict(r=rnd.randint(1, ranks), z=rnd.randint(1, 2), o=("ok" if rnd.random() >= fail else rnd.choice(["vf", "vp", "xf"])))
                  for _ in range(k)] for k in lens]
         if sum(lens) >= 5:
             pools.append(pool)
